@@ -43,7 +43,11 @@ CONSTANTS NDev, NPaths,
           Real,          \* TRUE: byte sizes of the real format (A = 8, header 16, directory 336); FALSE: scaled down
           NKinds,        \* number of frame kinds used (of FrameKinds)
           NScripts, MaxFaultAt, MaxDepth,
-          FIX_TIFF, FIX_SBS, FIX_META
+          FIX_TIFF, FIX_SBS, FIX_META,
+          SetRunning,    \* TRUE: storage_set is also called on a running device (acquire_configure during an acquisition)
+          FIX_SET        \* 1: storage_set stops a running device whose new settings were rejected (as camera_set does);
+                         \* 0: as it was - the HAL stores AwaitingConfiguration over Running, after which Tiff::stop()
+                         \*    (which consults that state) never finishes or closes the file
 
 A == IF Real THEN 8 ELSE 2                 \* alignment of sections
 HdrSz == 2 * A                             \* header: magic word + first-directory word
@@ -69,9 +73,10 @@ vars == <<dev, os, gh, used, err, crashed, lastAct, hist>>
 \* the other instances only compete for descriptor numbers: one acquisition, nothing appended
 Lim(d) == IF d = 1 THEN [cyc |-> MaxCycles, app |-> MaxAppends] ELSE [cyc |-> 1, app |-> 0]
 NoDev == [open |-> FALSE, kind |-> "none", ostate |-> CLOSED, opath |-> 0, ometa |-> FALSE,
-          state |-> CLOSED, fid |-> 0, lastOff |-> 0, lastLink |-> 0, count |-> 0, file |-> 0, meta |-> FALSE,
+          state |-> CLOSED, fid |-> 0, lastOff |-> 0, lastLink |-> 0, count |-> 0, file |-> 0, rfile |-> 0, meta |-> FALSE,
           cyc |-> 0, napp |-> 0]
-NoGh == [dirs |-> <<>>, clean |-> FALSE, pend |-> FALSE, fresh |-> FALSE, want |-> FALSE, nf |-> 0]
+\* want: metadata of the last accepted configuration; fwant: what the first frame of the file being written has to carry
+NoGh == [dirs |-> <<>>, clean |-> FALSE, pend |-> FALSE, fresh |-> FALSE, want |-> FALSE, fwant |-> FALSE, nf |-> 0]
 FaultSet == {[at |-> 0, pers |-> FALSE]} \cup {[at |-> k, pers |-> b] : k \in 1..MaxFaultAt, b \in BOOLEAN}
 Hal(t) == IF t.kind = "sbs" THEN t.ostate ELSE t.state
 
@@ -224,9 +229,9 @@ StopCheck(m, d, g) ==
   \* (a failing write while stopping cannot be reported by leaving Running; the file clauses assume no OS failure)
   IF ~(Ghost /\ g.clean /\ Len(g.dirs) >= 1 /\ ~m.failed) THEN m
   ELSE LET t == m.t
-           e1 == FileErrs(m.files[t.file], g.dirs)
-           e2 == IF g.dirs[1].dl # FrameKinds[g.dirs[1].k].s + (IF g.want THEN MetaSz ELSE 0)
-                 THEN {IF g.want THEN "MetadataNotOnFirstFrame" ELSE "MetadataNotTheUsers"} ELSE {} IN
+           e1 == FileErrs(m.files[t.rfile], g.dirs)
+           e2 == IF g.dirs[1].dl # FrameKinds[g.dirs[1].k].s + (IF g.fwant THEN MetaSz ELSE 0)
+                 THEN {IF g.fwant THEN "MetadataNotOnFirstFrame" ELSE "MetadataNotTheUsers"} ELSE {} IN
        [m EXCEPT !.err = @ \cup e1 \cup (IF t.kind = "tiff" THEN e2 ELSE {})]
 
 \* ---- HAL-level actions -----------------------------------------------------------------------------------------------
@@ -250,17 +255,31 @@ DoOpen(d, kind) ==
             [NoDev EXCEPT !.open = TRUE, !.kind = kind, !.state = AWAIT, !.cyc = dev[d].cyc], NoGh, Label("open", d, <<kind>>, <<>>))
   /\ UNCHANGED used
 
+\* On a running device (SetRunning): accepted settings leave it Running (storage_set keeps Running; they apply to the next
+\* start, the open file is the one named at start: rfile); rejected settings take it out of the running state - repaired
+\* (FIX_SET = 1) after the HAL stopped it (the driver's stop finishes and closes the file), as it was with the file open.
 DoSet(d, meta) ==
-  /\ dev[d].open /\ Hal(dev[d]) # RUNNING /\ used < NPaths /\ dev[d].cyc < Lim(d).cyc
+  /\ dev[d].open /\ (Hal(dev[d]) # RUNNING \/ SetRunning) /\ used < NPaths /\ dev[d].cyc < Lim(d).cyc
   /\ LET p == used + 1
          t == dev[d]
+         run == Hal(t) = RUNNING
          \* side_by_side_tiff_set: validation touches no file; as coded it rejects a configuration without metadata
          \* (validate_json refuses the 1-byte empty string the properties library stores for "no metadata")
-         m == IF t.kind = "sbs" THEN (IF meta THEN [TMachine(os, <<>>, [t EXCEPT !.opath = p, !.ometa = meta]) EXCEPT !.st = ARMED]
-                                      ELSE [TMachine(os, <<>>, t) EXCEPT !.st = AWAIT])
-              ELSE TSet(TMachine(os, <<>>, t), d, p, meta) IN
-     Commit(m, d, HalStore(m), [gh[d] EXCEPT !.fresh = (m.st = ARMED), !.want = meta],
-            Label("set", d, <<p, IF meta THEN 1 ELSE 0>>, <<>>))
+         m0 == IF t.kind = "sbs" THEN (IF meta THEN [TMachine(os, <<>>, [t EXCEPT !.opath = p, !.ometa = meta]) EXCEPT !.st = ARMED]
+                                       ELSE [TMachine(os, <<>>, t) EXCEPT !.st = AWAIT])
+               ELSE TSet(TMachine(os, <<>>, t), d, p, meta)
+         ok == m0.st = ARMED
+         \* storage_set on a running device: rejected -> storage_stop (FIX_SET = 1), then the answer is stored;
+         \* accepted -> the device stays Running
+         m1 == IF run /\ ~ok /\ FIX_SET = 1
+               THEN LET sp == IF t.kind = "sbs" THEN SStopV(m0, d) ELSE TStopV(m0, d) IN
+                    IF sp.overflow THEN sp ELSE [sp EXCEPT !.t = HalStore(sp), !.st = m0.st]
+               ELSE m0
+         m == IF run /\ ok THEN [m1 EXCEPT !.st = RUNNING] ELSE m1
+         \* (the metadata goes with the first frame of the file: settings accepted before it was written still count)
+         g == [gh[d] EXCEPT !.fresh = ok, !.want = IF ok \/ ~run THEN meta ELSE @,
+                            !.fwant = IF run /\ ok /\ gh[d].nf = 0 THEN meta ELSE @, !.clean = @ /\ (ok \/ ~run)] IN
+     Commit(m, d, HalStore(m), g, Label("set", d, <<p, IF meta THEN 1 ELSE 0>>, <<>>))
   /\ used' = used + 1
 
 DoStart(d, sc) ==
@@ -270,8 +289,9 @@ DoStart(d, sc) ==
          \* tiff-json: a started acquisition has the user's metadata in metadata.json
          m == IF Ghost /\ t.kind = "sbs" /\ ~m0.overflow /\ m0.st = RUNNING /\ gh[d].want /\ m0.files[200 + t.opath] # Cells(6, 0, MjSz)
               THEN Bad(m0, "MetadataJsonWrong") ELSE m0
-         g == [gh[d] EXCEPT !.dirs = <<>>, !.clean = (m.st = RUNNING), !.pend = (m.failed /\ m.st = RUNNING), !.fresh = FALSE, !.nf = 0] IN
-     Commit(m, d, HalStore(m), g, Label("start", d, <<>>, sc))
+         g == [gh[d] EXCEPT !.dirs = <<>>, !.clean = (m.st = RUNNING), !.pend = (m.failed /\ m.st = RUNNING), !.fresh = FALSE, !.nf = 0,
+                            !.fwant = gh[d].want] IN
+     Commit(m, d, [HalStore(m) EXCEPT !.rfile = m.t.file], g, Label("start", d, <<>>, sc))
   /\ UNCHANGED used
 
 DoAppend(d, fs, sc) ==
@@ -329,7 +349,7 @@ TypeOK == \A d \in Devs : /\ dev[d].state \in {CLOSED, AWAIT, ARMED, RUNNING}
                           /\ dev[d].ostate \in {CLOSED, AWAIT, ARMED, RUNNING}
                           /\ dev[d].lastOff >= 0 /\ dev[d].lastLink >= 0
 \* repaired code: the writer holds a descriptor exactly while its `state` says Running, and it is the one in file_
-AllFixed == FIX_TIFF = 1 /\ FIX_SBS = 1
+AllFixed == FIX_TIFF = 1 /\ FIX_SBS = 1 /\ FIX_SET = 1
 OwnsItsFile == AllFixed => \A d \in Devs : Owns(os, d) = (IF dev[d].state = RUNNING THEN {dev[d].fid} ELSE {})
 \* repaired code: section offsets are aligned and increase; the link cursor lies inside the last directory
 Cursors == AllFixed => \A d \in Devs : dev[d].state = RUNNING =>
